@@ -78,23 +78,24 @@ struct Pv {
     ls: u8, // 1: an attempt the node was silent on is answered after all, once the timeout has passed
     rs: u8, // size of the success reply's body: 0 small, 1..6 = 4095, 4096, 4097, 65535, 65537, 1 MiB
     rt: u8, // async cases: 1 = a runtime of its own with one worker thread and one blocking thread
+    bb: u8, // which undecodable body a `badbody` reply carries
 }
 
-const PV_RANGES: [u8; 16] = [6, 6, 4, 5, 3, 4, 3, 3, 3, 3, 2, 4, 5, 2, 7, 2];
+const PV_RANGES: [u8; 17] = [6, 6, 4, 5, 3, 4, 3, 3, 3, 3, 2, 4, 5, 2, 7, 2, 8];
 
 impl Pv {
-    fn fields(&self) -> [u8; 16] {
-        [self.nm, self.tg, self.me, self.pa, self.to, self.dl, self.dt, self.by, self.cl, self.mf, self.op, self.ob, self.fr, self.ls, self.rs, self.rt]
+    fn fields(&self) -> [u8; 17] {
+        [self.nm, self.tg, self.me, self.pa, self.to, self.dl, self.dt, self.by, self.cl, self.mf, self.op, self.ob, self.fr, self.ls, self.rs, self.rt, self.bb]
     }
-    fn from_fields(f: [u8; 16]) -> Pv {
-        Pv { nm: f[0], tg: f[1], me: f[2], pa: f[3], to: f[4], dl: f[5], dt: f[6], by: f[7], cl: f[8], mf: f[9], op: f[10], ob: f[11], fr: f[12], ls: f[13], rs: f[14], rt: f[15] }
+    fn from_fields(f: [u8; 17]) -> Pv {
+        Pv { nm: f[0], tg: f[1], me: f[2], pa: f[3], to: f[4], dl: f[5], dt: f[6], by: f[7], cl: f[8], mf: f[9], op: f[10], ob: f[11], fr: f[12], ls: f[13], rs: f[14], rt: f[15], bb: f[16] }
     }
     fn parse(w: &str) -> Option<Pv> {
         let v: Vec<u8> = w.strip_prefix("p=")?.split('.').map(|x| x.parse::<u8>().ok()).collect::<Option<Vec<u8>>>()?;
-        if !(10..=16).contains(&v.len()) || v.iter().zip(PV_RANGES).any(|(x, r)| *x >= r) {
+        if !(10..=17).contains(&v.len()) || v.iter().zip(PV_RANGES).any(|(x, r)| *x >= r) {
             return None;
         }
-        let mut f = [0u8; 16];
+        let mut f = [0u8; 17];
         f[..v.len()].copy_from_slice(&v);
         Some(Pv::from_fields(f))
     }
@@ -103,7 +104,7 @@ impl Pv {
     }
     /// Each field: the ordinary value half of the time, otherwise any of its values.
     fn random(rng: &mut Rng) -> Pv {
-        let mut f = [0u8; 16];
+        let mut f = [0u8; 17];
         for (i, (x, r)) in f.iter_mut().zip(PV_RANGES).enumerate() {
             if (i < 10 || i >= 12) && rng.chance(1, 2) {
                 *x = rng.below(r as u64) as u8;
@@ -209,6 +210,10 @@ enum Beh {
     Malformed,
     AppErr,
     Success,
+    /// a well-framed reply, error code 0, whose body the entry point cannot decode (not one of the seven
+    /// outcomes of the property's alphabet that are enumerated exhaustively: a kind of malformed reply
+    /// that leaves the connection sound; generated in targeted cases)
+    BadBody,
 }
 const ALL_BEH: [Beh; 7] = [Beh::Refused, Beh::Atc, Beh::Idle, Beh::Silent, Beh::Malformed, Beh::AppErr, Beh::Success];
 
@@ -222,13 +227,17 @@ impl Beh {
             Beh::Malformed => "malformed",
             Beh::AppErr => "apperr",
             Beh::Success => "success",
+            Beh::BadBody => "badbody",
         }
     }
     fn parse(s: &str) -> Option<Beh> {
+        if s == "badbody" {
+            return Some(Beh::BadBody);
+        }
         ALL_BEH.iter().copied().find(|b| b.name() == s)
     }
     fn is_reply(self) -> bool {
-        matches!(self, Beh::Success | Beh::Idle | Beh::AppErr)
+        matches!(self, Beh::Success | Beh::Idle | Beh::AppErr | Beh::BadBody)
     }
 }
 
@@ -636,6 +645,8 @@ struct NodeShared {
     /// how replies are written (see `Pv::fr`), whether a silent attempt is answered late and after how
     /// many ms (0 = never), and the size the success reply's body is padded to (0 = not padded)
     frag: AtomicU64,
+    /// which undecodable body a `badbody` reply carries (see `bad_body`)
+    bad_body_kind: AtomicU64,
     late_ms: AtomicU64,
     pad_to: AtomicU64,
     _placeholder: OwnedFd,
@@ -747,6 +758,22 @@ fn reply_payload_sized(node: u64, k: usize, size: usize) -> String {
     format!("{{\"r\":[{node},{k}],\"pad\":\"{}\"}}", "p".repeat(size - base.len()))
 }
 
+/// The body (and body format code) of a `badbody` reply: a sound frame with error code 0 whose body is
+/// empty, JSON cut short at several places, not JSON, JSON under a format code that is not JSON's,
+/// not UTF-8, or JSON followed by more.
+fn bad_body(kind: u64) -> (u16, Vec<u8>) {
+    match kind {
+        0 => (2, vec![]),
+        1 => (2, b"{\"done\":".to_vec()),
+        2 => (2, b"{\"r\":[1,".to_vec()),
+        3 => (2, b"{".to_vec()),
+        4 => (2, b"nope".to_vec()),
+        5 => (999, b"{\"r\":[1,2]}".to_vec()),
+        6 => (2, vec![0xff, 0xfe, b'{', b'}']),
+        _ => (2, b"{\"r\":[1,2]} trailing".to_vec()),
+    }
+}
+
 /// Write a frame the way the case asks for: whole, byte by byte (the first 160 bytes; the rest whole),
 /// in 2–3 pieces cut at places drawn from `seed` (inside the header, at 48, inside the query, inside the
 /// body), the same with a stall of 3 ms between the pieces, or cut at 48 and after the query.
@@ -856,6 +883,10 @@ fn handle_conn(sh: Arc<NodeShared>, mut s: TcpStream, id: u64) {
             Beh::Success => {
                 let body = reply_payload_sized(sh.id, log_index, sh.pad_to.load(Ordering::SeqCst) as usize);
                 let _ = write_frame(&mut s, &reply_frame(&req, 0, 2, body.as_bytes()), how, seed, req.query.len());
+            }
+            Beh::BadBody => {
+                let (fmt, body) = bad_body(sh.bad_body_kind.load(Ordering::SeqCst));
+                let _ = write_frame(&mut s, &reply_frame(&req, 0, fmt, &body), how, seed, req.query.len());
             }
             Beh::AppErr => {
                 let code = sh.app_code.load(Ordering::SeqCst) as u32;
@@ -991,6 +1022,7 @@ impl Node {
             app_code: AtomicU64::new(4096),
             malformed_kind: AtomicU64::new(0),
             frag: AtomicU64::new(0),
+            bad_body_kind: AtomicU64::new(0),
             late_ms: AtomicU64::new(0),
             pad_to: AtomicU64::new(0),
             _placeholder: ph,
@@ -1046,6 +1078,7 @@ impl Node {
     /// How this node writes its replies (fragments, late answers, size), as the case asks.
     fn apply(&self, pv: &Pv) {
         self.sh.frag.store(pv.fr as u64, Ordering::SeqCst);
+        self.sh.bad_body_kind.store(pv.bb as u64, Ordering::SeqCst);
         self.sh.late_ms.store(if pv.ls == 1 { pv.t_node().as_millis() as u64 + 40 } else { 0 }, Ordering::SeqCst);
         self.sh.pad_to.store([0u64, 4095, 4096, 4097, 65535, 65537, 1 << 20][pv.rs as usize], Ordering::SeqCst);
     }
@@ -1150,6 +1183,60 @@ struct Env {
 }
 
 thread_local! {
+    /// How long a single call into the code under test may take in the case this thread executes: derived
+    /// from the configured bounds (attempts × (timeout + delay), ×3, + 5 s). A call that has not returned
+    /// by then never will as far as the property is concerned.
+    static BUDGET: std::cell::Cell<Duration> = const { std::cell::Cell::new(Duration::from_secs(60)) };
+    /// Set when a call of this thread's case outlived its budget: (entry point, budget).
+    static NEVER_RETURNED: std::cell::RefCell<Option<(String, Duration)>> = const { std::cell::RefCell::new(None) };
+}
+
+/// Calls that never returned, over the whole run. After three the run stops executing cases.
+static NEVER_RETURNED_TOTAL: AtomicU64 = AtomicU64::new(0);
+
+fn set_budget(max: usize, timeout: Duration, delay: Duration) {
+    let attempts = max.min(1000) as u32;
+    BUDGET.with(|b| b.set((timeout + delay) * attempts * 3 + Duration::from_secs(5)));
+}
+
+/// Payload of the unwinding that abandons a case whose call never returned.
+struct CallNeverReturned;
+
+fn never_returned(what: &str, budget: Duration) -> ! {
+    NEVER_RETURNED.with(|n| *n.borrow_mut() = Some((what.to_string(), budget)));
+    // (after three, no further case is started; the cases under way are still confirmed)
+    NEVER_RETURNED_TOTAL.fetch_add(1, Ordering::SeqCst);
+    std::panic::panic_any(CallNeverReturned)
+}
+
+/// Run a blocking call into the code under test on a thread of its own and wait for it at most the
+/// case's budget. On expiry the thread is abandoned (it holds clones only) and the case is unwound.
+fn guarded<T: Send + 'static>(what: &str, f: impl FnOnce() -> T + Send + 'static) -> T {
+    let budget = BUDGET.with(|b| b.get());
+    let (tx, rx) = std::sync::mpsc::sync_channel::<std::thread::Result<T>>(1);
+    let spawned = std::thread::Builder::new().stack_size(512 << 10).spawn(move || {
+        let _ = tx.send(std::panic::catch_unwind(std::panic::AssertUnwindSafe(f)));
+    });
+    if spawned.is_err() {
+        panic!("cannot spawn the thread of a guarded call");
+    }
+    match rx.recv_timeout(budget) {
+        Ok(Ok(v)) => v,
+        Ok(Err(p)) => std::panic::resume_unwind(p),
+        Err(_) => never_returned(what, budget),
+    }
+}
+
+/// The same for a future of the async fleet: it is dropped on expiry.
+fn guarded_async<T>(env: &Env, what: &str, fut: impl std::future::Future<Output = T>) -> T {
+    let budget = BUDGET.with(|b| b.get());
+    match env.rt().block_on(async { tokio::time::timeout(budget, fut).await }) {
+        Ok(v) => v,
+        Err(_) => never_returned(what, budget),
+    }
+}
+
+thread_local! {
     /// The runtime of the case this worker thread is executing, if the case asks for its own (a
     /// starved one: one worker thread, one blocking thread).
     static CASE_RT: std::cell::RefCell<Option<Arc<tokio::runtime::Runtime>>> = const { std::cell::RefCell::new(None) };
@@ -1243,42 +1330,59 @@ impl AnyFleet {
     }
     fn call(&self, env: &Env, variant: &str, name: &str, method: &str, params: &serde_json::Value) -> Returned {
         // the node exists in every case: a `FleetError` here is a call that reported neither a reply nor a transport error
-        let refused = |e: repe::FleetError| Returned { class: format!("FleetError({})", format!("{e:?}").split('(').next().unwrap_or("?")), detail: None };
+        let refused = move |e: repe::FleetError| Returned { class: format!("FleetError({})", format!("{e:?}").split('(').next().unwrap_or("?")), detail: None };
         match (self, variant) {
-            (AnyFleet::B(f), "json") => f.call_json(name, method, Some(params)).map_or_else(refused, returned_json),
-            (AnyFleet::B(f), "jsonnp") => f.call_json(name, method, None).map_or_else(refused, returned_json),
-            (AnyFleet::B(f), _) => f.call_message(name, method).map_or_else(refused, returned_message),
-            (AnyFleet::A(f), "json") => env.rt().block_on(f.call_json(name, method, Some(params))).map_or_else(refused, returned_json),
-            (AnyFleet::A(f), "jsonnp") => env.rt().block_on(f.call_json(name, method, None)).map_or_else(refused, returned_json),
-            (AnyFleet::A(f), _) => env.rt().block_on(f.call_message(name, method)).map_or_else(refused, returned_message),
+            (AnyFleet::B(f), v) => {
+                let (f, v, name, method, params) = (f.clone(), v.to_string(), name.to_string(), method.to_string(), params.clone());
+                guarded("call_json / call_message", move || match v.as_str() {
+                    "json" => f.call_json(&name, &method, Some(&params)).map_or_else(refused, returned_json),
+                    "jsonnp" => f.call_json(&name, &method, None).map_or_else(refused, returned_json),
+                    _ => f.call_message(&name, &method).map_or_else(refused, returned_message),
+                })
+            }
+            (AnyFleet::A(f), "json") => guarded_async(env, "call_json", f.call_json(name, method, Some(params))).map_or_else(refused, returned_json),
+            (AnyFleet::A(f), "jsonnp") => guarded_async(env, "call_json", f.call_json(name, method, None)).map_or_else(refused, returned_json),
+            (AnyFleet::A(f), _) => guarded_async(env, "call_message", f.call_message(name, method)).map_or_else(refused, returned_message),
         }
     }
     /// `connect_all`: was `name` reported connected (Some(true)), failed (Some(false)) or neither (None)
     fn connect_all(&self, env: &Env, name: &str) -> Option<bool> {
         let s = match self {
-            AnyFleet::B(f) => f.connect_all(),
-            AnyFleet::A(f) => env.rt().block_on(f.connect_all()),
+            AnyFleet::B(f) => {
+                let f = f.clone();
+                guarded("connect_all", move || f.connect_all())
+            }
+            AnyFleet::A(f) => guarded_async(env, "connect_all", f.connect_all()),
         };
         if s.connected.iter().any(|x| x == name) { Some(true) } else if s.failed.iter().any(|x| x == name) { Some(false) } else { None }
     }
     fn disconnect_all(&self, env: &Env) {
         match self {
-            AnyFleet::B(f) => drop(f.disconnect_all()),
-            AnyFleet::A(f) => drop(env.rt().block_on(f.disconnect_all())),
+            AnyFleet::B(f) => {
+                let f = f.clone();
+                guarded("disconnect_all", move || drop(f.disconnect_all()))
+            }
+            AnyFleet::A(f) => drop(guarded_async(env, "disconnect_all", f.disconnect_all())),
         }
     }
     fn reconnect(&self, env: &Env, name: &str) -> Option<bool> {
         let s = match self {
-            AnyFleet::B(f) => f.reconnect_disconnected(),
-            AnyFleet::A(f) => env.rt().block_on(f.reconnect_disconnected()),
+            AnyFleet::B(f) => {
+                let f = f.clone();
+                guarded("reconnect_disconnected", move || f.reconnect_disconnected())
+            }
+            AnyFleet::A(f) => guarded_async(env, "reconnect_disconnected", f.reconnect_disconnected()),
         };
         if s.reconnected.iter().any(|x| x == name) { Some(true) } else if s.failed.iter().any(|x| x == name) { Some(false) } else { None }
     }
     /// `health_check`: class of the verdict for `name` (`ok` = healthy)
     fn health(&self, env: &Env, name: &str, method: &str) -> String {
         let mut m = match self {
-            AnyFleet::B(f) => f.health_check(method),
-            AnyFleet::A(f) => env.rt().block_on(f.health_check(method)),
+            AnyFleet::B(f) => {
+                let (f, method) = (f.clone(), method.to_string());
+                guarded("health_check", move || f.health_check(&method))
+            }
+            AnyFleet::A(f) => guarded_async(env, "health_check", f.health_check(method)),
         };
         match m.remove(name) {
             None => "None".into(),
@@ -1291,8 +1395,11 @@ impl AnyFleet {
     }
     fn is_connected(&self, env: &Env, name: &str) -> bool {
         match self {
-            AnyFleet::B(f) => f.is_connected(name).unwrap_or(false),
-            AnyFleet::A(f) => env.rt().block_on(f.is_connected(name)).unwrap_or(false),
+            AnyFleet::B(f) => {
+                let (f, name) = (f.clone(), name.to_string());
+                guarded("is_connected", move || f.is_connected(&name).unwrap_or(false))
+            }
+            AnyFleet::A(f) => guarded_async(env, "is_connected", f.is_connected(name)).unwrap_or(false),
         }
     }
 }
@@ -1366,6 +1473,8 @@ struct CallRec {
     delay: Duration,
     /// the node answers its silent attempts after all, late (`Pv::ls`)
     late: bool,
+    /// the entry point decodes the reply's body as JSON (`call_json`; not `call_message`, `health_check`)
+    decodes: bool,
 }
 
 #[derive(Default)]
@@ -1381,7 +1490,7 @@ struct CaseOut {
 
 /// Coverage evidence: which value of each varied parameter the judged cases had.
 fn pv_counters(pv: &Pv, counters: &mut Vec<String>) {
-    let names = ["name_style", "tag_style", "method_style", "params", "node_timeout", "retry_delay", "default_timeout", "bystander", "handle", "malformed_kind", "constructor", "observers", "reply_fragments", "late_reply", "reply_size", "own_runtime"];
+    let names = ["name_style", "tag_style", "method_style", "params", "node_timeout", "retry_delay", "default_timeout", "bystander", "handle", "malformed_kind", "constructor", "observers", "reply_fragments", "late_reply", "reply_size", "own_runtime", "bad_body_kind"];
     for (n, v) in names.iter().zip(pv.fields()) {
         counters.push(format!("param.{n}.{v}"));
     }
@@ -1504,6 +1613,7 @@ fn check_call(kind: &str, max: usize, c: &CallRec, what: &str, sniffer_dependent
             let (want, alts): (&str, &[&str]) = match (last.beh, last.via) {
                 (Beh::Success, _) | (Beh::Idle, _) => ("ok", &[]),
                 (Beh::AppErr, _) => ("Server", &[]),
+                (Beh::BadBody, _) => (if c.decodes { "Decode" } else { "ok" }, &[]),
                 (Beh::Malformed, _) => ("Decode", &[]),
                 (Beh::Silent, _) => ("Io(TimedOut)", &[]),
                 (Beh::Refused, Via::Connect) => ("Io(ConnectionRefused)", &[]),
@@ -1524,10 +1634,15 @@ fn check_call(kind: &str, max: usize, c: &CallRec, what: &str, sniffer_dependent
                 }
                 let sig = match last.beh {
                     Beh::Success | Beh::Idle | Beh::AppErr => "report.not_the_reply",
+                    Beh::BadBody => "report.undecodable_reply_as_something_else",
                     Beh::Malformed => "report.malformed_reply",
                     _ => "report.not_the_last_transport_error",
                 };
                 return Verdict::Fail(format!("fleet.{k}.{sig}"), ctx);
+            }
+            // the frame of an undecodable body was sound: the connection it came on is kept
+            if last.beh == Beh::BadBody && !c.conn {
+                return Verdict::Fail(format!("fleet.{k}.badbody.connection_dropped"), ctx);
             }
             // "reports that reply": the content is the one the node sent at this, the final, contact
             if !health {
@@ -1581,6 +1696,7 @@ fn one_call(env: &Env, fleet: &Handles, node: &Node, variant: &str) -> Result<Ca
         t_node: fleet.pv.t_node(),
         delay: fleet.pv.delay(),
         late: fleet.pv.ls == 1,
+        decodes: variant != "msg",
     })
 }
 
@@ -1594,6 +1710,9 @@ struct Rig {
 }
 
 fn build_rig(env: &Env, idx: &str, kind: &str, max: usize, seq: &[Beh], pv: &Pv) -> Result<Rig, String> {
+    // the slowest legitimate call of the case: max_attempts timeouts and delays (the bystander's timeout
+    // is a single attempt, never waited for; `run_life` widens the budget for the health check's 5 s)
+    set_budget(max, pv.t_node(), pv.delay());
     let mk = |script: Vec<Beh>| Node::new(script, env.sniffer.clone()).map_err(|e| format!("node_{:?}:{e}", e.kind()));
     let node = mk(seq.to_vec())?;
     node.set_app_code_for(idx);
@@ -1855,6 +1974,7 @@ fn run_life(env: &Env, idx: &str, kind: &str, max: usize, seq: &[Beh], ops: &[St
             return out;
         }
     };
+    set_budget(max, pv.t_node().max(HEALTH_TIMEOUT / max.min(1000) as u32), pv.delay());
     let (node, fleet) = (&rig.node, &rig.fleet);
     let sd = seq.contains(&Beh::Refused);
     let mut words = vec![idx.to_string(), "o".to_string()];
@@ -1900,6 +2020,7 @@ fn run_life(env: &Env, idx: &str, kind: &str, max: usize, seq: &[Beh], ops: &[St
                         t_node: HEALTH_TIMEOUT,
                         delay: Duration::ZERO,
                         late: false,
+                        decodes: false,
                     };
                     // a health check is one attempt: the clauses of a call with max_attempts = 1 …
                     verdicts.push(check_call(kind, 1, &c, &what, sd));
@@ -2060,7 +2181,7 @@ fn parse_bc_nodes(s: &str) -> Option<Vec<BcNode>> {
         // scripts whose every element yields the same class whatever the timing: the node never has
         // to answer within the short timeout that the silent nodes get
         let uniform = |b: Beh| bs.iter().all(|x| *x == b);
-        if !(bs.is_empty() || uniform(Beh::Refused) || uniform(Beh::Silent) || bs.iter().all(|b| matches!(b, Beh::AppErr | Beh::Success))) {
+        if !(bs.is_empty() || uniform(Beh::Refused) || uniform(Beh::Silent) || bs.iter().all(|b| matches!(b, Beh::AppErr | Beh::Success | Beh::BadBody))) {
             return None;
         }
         let down = !bs.is_empty() && uniform(Beh::Refused);
@@ -2094,35 +2215,52 @@ impl AnyFleet {
             v.into_iter().map(one).collect()
         };
         match (self, reducer) {
-            (AnyFleet::B(f), None) => f.broadcast_json(method, params, req).into_iter().map(|(k, r)| (k, returned_json(r))).collect(),
-            (AnyFleet::B(f), Some(red)) => f.map_reduce_json(method, params, req, |v| reduce(red, v)),
-            (AnyFleet::A(f), None) => env.rt().block_on(f.broadcast_json(method, params, req)).into_iter().map(|(k, r)| (k, returned_json(r))).collect(),
-            (AnyFleet::A(f), Some(red)) => env.rt().block_on(f.map_reduce_json(method, params, req, |v| reduce(red, v))),
+            (AnyFleet::B(f), red) => {
+                let (f, method, params, req) = (f.clone(), method.to_string(), params.cloned(), req.to_vec());
+                guarded("broadcast_json / map_reduce_json", move || match red {
+                    None => f.broadcast_json(&method, params.as_ref(), &req).into_iter().map(|(k, r)| (k, returned_json(r))).collect(),
+                    Some(red) => f.map_reduce_json(&method, params.as_ref(), &req, |v| reduce(red, v)),
+                })
+            }
+            (AnyFleet::A(f), None) => guarded_async(env, "broadcast_json", f.broadcast_json(method, params, req)).into_iter().map(|(k, r)| (k, returned_json(r))).collect(),
+            (AnyFleet::A(f), Some(red)) => guarded_async(env, "map_reduce_json", f.map_reduce_json(method, params, req, |v| reduce(red, v))),
         }
     }
     fn filter_nodes(&self, env: &Env, req: &[String]) -> Vec<String> {
         match self {
-            AnyFleet::B(f) => f.filter_nodes(req).into_iter().map(|n| n.name).collect(),
-            AnyFleet::A(f) => env.rt().block_on(f.filter_nodes(req)).into_iter().map(|n| n.name).collect(),
+            AnyFleet::B(f) => {
+                let (f, req) = (f.clone(), req.to_vec());
+                guarded("filter_nodes", move || f.filter_nodes(&req).into_iter().map(|n| n.name).collect())
+            }
+            AnyFleet::A(f) => guarded_async(env, "filter_nodes", f.filter_nodes(req)).into_iter().map(|n| n.name).collect(),
         }
     }
     fn remove_node(&self, env: &Env, name: &str) -> bool {
         match self {
-            AnyFleet::B(f) => f.remove_node(name),
-            AnyFleet::A(f) => env.rt().block_on(f.remove_node(name)),
+            AnyFleet::B(f) => {
+                let (f, name) = (f.clone(), name.to_string());
+                guarded("remove_node", move || f.remove_node(&name))
+            }
+            AnyFleet::A(f) => guarded_async(env, "remove_node", f.remove_node(name)),
         }
     }
     fn add_node(&self, env: &Env, cfg: NodeConfig) -> bool {
         match self {
-            AnyFleet::B(f) => f.add_node(cfg).is_ok(),
-            AnyFleet::A(f) => env.rt().block_on(f.add_node(cfg)).is_ok(),
+            AnyFleet::B(f) => {
+                let f = f.clone();
+                guarded("add_node", move || f.add_node(cfg).is_ok())
+            }
+            AnyFleet::A(f) => guarded_async(env, "add_node", f.add_node(cfg)).is_ok(),
         }
     }
     /// `call_json` on a name: `None` if the fleet does not know the node
     fn try_call(&self, env: &Env, name: &str, method: &str) -> Option<Returned> {
         match self {
-            AnyFleet::B(f) => f.call_json(name, method, None).ok().map(returned_json),
-            AnyFleet::A(f) => env.rt().block_on(f.call_json(name, method, None)).ok().map(returned_json),
+            AnyFleet::B(f) => {
+                let (f, name, method) = (f.clone(), name.to_string(), method.to_string());
+                guarded("call_json", move || f.call_json(&name, &method, None).ok().map(returned_json))
+            }
+            AnyFleet::A(f) => guarded_async(env, "call_json", f.call_json(name, method, None)).ok().map(returned_json),
         }
     }
 }
@@ -2166,6 +2304,7 @@ fn run_bc(env: &Env, idx: &str, kind: &str, max: usize, nodes: &[BcNode], req: &
         let t = if short(n) { pv.t_node() } else { T_BCAST + Duration::from_millis(100 * i as u64) };
         NodeConfig::new(node_host(), x.port()).unwrap().with_name(real_name(&n.name)).unwrap().with_tags(n.tags.iter().map(|t| pv.tag(t))).with_timeout(t).unwrap()
     };
+    set_budget(max, T_BCAST + Duration::from_millis(100 * nodes.len() as u64), pv.delay());
     let configs: Vec<NodeConfig> = (0..nodes.len()).collect::<Vec<_>>().into_iter().map(config_of).collect();
     let fleet = AnyFleet::new(kind, configs, max, pv);
     let held = fleet.clone();
@@ -2258,7 +2397,13 @@ fn run_bc(env: &Env, idx: &str, kind: &str, max: usize, nodes: &[BcNode], req: &
             }
             out.fails.push((format!("fleet.{k}.retry_after_reply.broadcast"), format!("{ctx}; node {} answered its first request and was contacted {} times", n.name, log.len())));
         }
-        if answers && log.len() == 1 {
+        if answers && log.len() == 1 && log[0].beh == Beh::BadBody {
+            // a sound frame with an undecodable body: one request, reported as what it is
+            let got = returned.iter().find(|(nm, _)| *nm == real_name(&n.name)).map(|(_, r)| r.class.clone());
+            if got.as_deref().map_or(false, |g| g != "Decode") {
+                out.fails.push((format!("fleet.{k}.report.undecodable_reply_as_something_else"), format!("{ctx}; node {i} ({}) answered with an undecodable body, its result is {got:?}", n.name)));
+            }
+        } else if answers && log.len() == 1 {
             let want = match log[0].beh {
                 Beh::AppErr => format!("{}:{}", x.sh.app_code.load(Ordering::SeqCst), app_error_text(x.sh.id, 0)),
                 _ => reply_detail(x.sh.id, 0),
@@ -2528,8 +2673,15 @@ impl Observers {
 impl Drop for Observers {
     fn drop(&mut self) {
         self.stop.store(true, Ordering::SeqCst);
+        // an observer stuck inside the fleet (a read-only entry point that never returns) is left behind
+        let deadline = Instant::now() + Duration::from_secs(2);
         for h in self.threads.drain(..) {
-            let _ = h.join();
+            while !h.is_finished() && Instant::now() < deadline {
+                std::thread::sleep(Duration::from_micros(200));
+            }
+            if h.is_finished() {
+                let _ = h.join();
+            }
         }
         for t in self.tasks.drain(..) {
             t.abort();
@@ -2766,6 +2918,7 @@ fn run_cx(env: &Env, idx: &str, max: usize, rounds: usize, pv: &Pv) -> CaseOut {
 // ------------------------------------------------------------------------------------------
 fn run_opts(env: &Env, idx: &str, kind: &str, what: &str) -> CaseOut {
     let mut out = CaseOut::default();
+    set_budget(2, T_BCAST, Duration::from_millis(1));
     let k = kind_name(kind);
     let mk = || Node::new(vec![], env.sniffer.clone()).map_err(|e| format!("node_{:?}:{e}", e.kind()));
     let (n1, n2) = match (mk(), mk()) {
@@ -2816,7 +2969,32 @@ fn run_opts(env: &Env, idx: &str, kind: &str, what: &str) -> CaseOut {
 // ------------------------------------------------------------------------------------------
 // op lines
 // ------------------------------------------------------------------------------------------
+/// One case. A call into the code under test that outlives its budget unwinds the case from wherever
+/// it is; the case then has one verdict: the call never returned (the attempt bound and "reports the
+/// reply or the last transport error" are both violated by a call that reports nothing, ever).
 fn exec(env: &Env, line: &str) -> CaseOut {
+    NEVER_RETURNED.with(|n| *n.borrow_mut() = None);
+    match std::panic::catch_unwind(std::panic::AssertUnwindSafe(|| exec_case(env, line))) {
+        Ok(r) => r,
+        Err(p) => {
+            let Some((what, budget)) = NEVER_RETURNED.with(|n| n.borrow_mut().take()) else { std::panic::resume_unwind(p) };
+            let w = words(line);
+            let idx = w.get(1).copied().unwrap_or("?");
+            let kind = w.iter().skip(2).find(|x| **x == "a" || **x == "b").copied().unwrap_or("b");
+            CaseOut {
+                obs: Some(format!("{idx} never-returned")),
+                fails: vec![(
+                    format!("fleet.{}.call_never_returned", kind_name(kind)),
+                    format!("{what} had not returned after {} ms — three times the configured bound (max_attempts × (timeout + retry delay)) plus 5 s; the case was abandoned there", budget.as_millis()),
+                )],
+                nontrivial: true,
+                ..Default::default()
+            }
+        }
+    }
+}
+
+fn exec_case(env: &Env, line: &str) -> CaseOut {
     let mut w = words(line);
     // the parameter word may stand anywhere; without it every parameter has its ordinary value
     let pv = match w.iter().find(|x| x.starts_with("p=")) {
@@ -3016,6 +3194,54 @@ fn gen_cases(rng: &mut Rng, thorough: bool) -> Vec<String> {
             }
         }
     }
+    // a well-framed reply (error code 0) with an undecodable body — empty, JSON cut short, not JSON, a
+    // wrong format code, not UTF-8, trailing bytes: every sequence of length <= 2 that contains it, over
+    // the eight outcomes, for each entry point (with params, without, message) and max_attempts 1..3;
+    // in a row; in broadcasts (with and without params)
+    {
+        let eight: Vec<Beh> = ALL_BEH.iter().copied().chain(std::iter::once(Beh::BadBody)).collect();
+        let mut seqs: Vec<Vec<Beh>> = vec![vec![Beh::BadBody]];
+        for a in &eight {
+            for b in &eight {
+                if *a == Beh::BadBody || *b == Beh::BadBody {
+                    seqs.push(vec![*a, *b]);
+                }
+            }
+        }
+        let mut q = 0usize;
+        for seq in &seqs {
+            for (vi, v) in ["json", "jsonnp", "msg"].iter().enumerate() {
+                for max in [1usize, 2, 3] {
+                    q += 1;
+                    if !thorough && (q + vi) % 2 == 0 && seq.len() == 2 {
+                        continue; // quick: half of the two-element ones
+                    }
+                    let kind = if q % 2 == 0 { "b" } else { "a" };
+                    let mut pv = Pv::random_for(rng, seq);
+                    pv.bb = (q % 8) as u8;
+                    ops.push(format!("case q{q} {kind} {v} {max} {} {}", show_seq(seq), pv.show()));
+                }
+            }
+        }
+        for nrep in [2usize, 8, 17] {
+            for (vi, v) in ["json", "jsonnp", "msg"].iter().enumerate() {
+                q += 1;
+                let mut pv = Pv::random(rng);
+                pv.bb = ((q + vi) % 8) as u8;
+                ops.push(format!("case q{q} {} {v} {} {} {}", ["b", "a"][q % 2], 1 + q % 3, show_seq(&vec![Beh::BadBody; nrep]), pv.show()));
+            }
+        }
+        for bb in 0..8u8 {
+            for kind in ["b", "a"] {
+                for pa in [0u8, 4] {
+                    q += 1;
+                    let pv = Pv { bb, pa, ..Pv::random(rng) };
+                    let op = if q % 2 == 0 { "bc" } else { "mr" };
+                    ops.push(format!("{op} bq{q} {kind} {} n0=a=badbody;n1=a=-;n2=b=badbody a {}", 1 + q % 3, pv.show()));
+                }
+            }
+        }
+    }
     // (k) pairs of knobs at their extremes: an orthogonal array of strength 2 over seven two-valued knobs
     // (max_attempts 1|64, retry delay 0|40 ms, node timeout 60|120 ms, default timeout 1 ms|20 s, handle
     // fleet|fresh clone, shared|own starved runtime, replies whole|in stalled pieces): every pair of
@@ -3211,7 +3437,7 @@ fn main() {
                     Err(msg) => CaseOut { skip: Some(format!("harness_panic:{msg}")), ..Default::default() },
                 }
             };
-            if CONFIRMED.load(Ordering::SeqCst) >= ENOUGH_CONFIRMED {
+            if CONFIRMED.load(Ordering::SeqCst) >= ENOUGH_CONFIRMED || NEVER_RETURNED_TOTAL.load(Ordering::SeqCst) >= 3 {
                 results.lock().unwrap()[i] = Some(CaseOut { skip: Some("not_run_after_failures".into()), ..Default::default() });
                 continue;
             }
